@@ -126,6 +126,12 @@ def restamp (s : St) (ctx : Ctx) (delta : Int) : St :=
   | some l => { s with locker := some { l with net := l.net + delta, bh := ctx.height, bt := ctx.now } }
   | none => s
 
+/-- result of a rate update whose sweep returned `o`: the collector entry is written afterwards; a panic aborts the contract call -/
+def sweepRes (o : Option St) (c : Coll) : Res :=
+  match o with
+  | some s1 => .ok { s1 with coll := c }
+  | none => .panic
+
 /-- one message / binding call; `pw` = value of the one `math.Pow` call it makes (if it makes one) -/
 def step (s : St) (ctx : Ctx) (op : Op) (pw : Option Int) : Res :=
   match op with
@@ -157,19 +163,12 @@ def step (s : St) (ctx : Ctx) (op : Op) (pw : Option Int) : Res :=
     | none => .err
     | some l => accrue s ctx l pw
   | .lsrUpdate nr =>
-    let fin (s1 : St) (bh bt : Int) : St := { s1 with coll := { lsr := nr, bh := bh, bt := bt } }
     if s.wl then
-      if nr = 0 then
-        match iter s ctx s.coll.lsr s.coll.bt false pw with
-        | some s1 => .ok (fin s1 0 ctx.now)
-        | none => .panic
-      else if s.coll.lsr = 0 then .ok (fin s ctx.height ctx.now)
-      else if 0 < s.coll.lsr ∧ 0 < nr then
-        match iter s ctx s.coll.lsr s.coll.bt true pw with
-        | some s1 => .ok (fin s1 ctx.height ctx.now)
-        | none => .panic
-      else .ok (fin s s.coll.bh s.coll.bt)
-    else .ok (fin s s.coll.bh s.coll.bt)
+      if nr = 0 then sweepRes (iter s ctx s.coll.lsr s.coll.bt false pw) ⟨nr, 0, ctx.now⟩
+      else if s.coll.lsr = 0 then .ok { s with coll := ⟨nr, ctx.height, ctx.now⟩ }
+      else if 0 < s.coll.lsr ∧ 0 < nr then sweepRes (iter s ctx s.coll.lsr s.coll.bt true pw) ⟨nr, ctx.height, ctx.now⟩
+      else .ok { s with coll := ⟨nr, s.coll.bh, s.coll.bt⟩ }
+    else .ok { s with coll := ⟨nr, s.coll.bh, s.coll.bt⟩ }
   | .wlOn => .ok { s with wl := true }
   | .wlOff => if s.wl then .ok { s with wl := false } else .err       -- ErrInternalRewardsNotFound
 
@@ -213,12 +212,13 @@ structure Ghost where
   acc : Int
   deriving DecidableEq, Repr
 
+def Op.accruing : Op → Bool
+  | .deposit _ | .withdraw _ | .close | .rewardCalc | .lsrUpdate _ => true
+  | _ => false
+
 /-- the accepted step `op` in state `s` runs the savings formula for the locker (at the rate in force BEFORE the step) -/
 def accrues (s : St) (op : Op) : Bool :=
-  s.wl && s.coll.lsr != 0 && s.locker.isSome &&
-    (match op with
-     | .deposit _ | .withdraw _ | .close | .rewardCalc | .lsrUpdate _ => true
-     | _ => false)
+  s.wl && s.coll.lsr != 0 && s.locker.isSome && op.accruing
 
 def accepted (r : Res) : Bool := match r with | .ok _ => true | _ => false
 
@@ -228,11 +228,15 @@ def pending (r : Dec) (s : St) (t : Int) : Int :=
   | some l => if s.coll.lsr = r then t - clock s l else 0
   | none => 0
 
+/-- seconds credited at rate `r` by the step: the accrued interval, if the step is accepted, accrues, and the rate in force is `r` -/
+def accTerm (r : Dec) (s : St) (ctx : Ctx) (op : Op) (pw : Option Int) : Int :=
+  if accepted (step s ctx op pw) && accrues s op && decide (s.coll.lsr = r)
+  then (match s.locker with | some l => ctx.now - clock s l | none => 0) else 0
+
 def gstep (r : Dec) (s : St) (g : Ghost) (ctx : Ctx) (op : Op) (pw : Option Int) : Ghost :=
   { last := ctx.now,
     pos := g.pos + (if s.coll.lsr = r then ctx.now - g.last else 0),
-    acc := g.acc + (if accepted (step s ctx op pw) && accrues s op && s.coll.lsr = r
-                    then (match s.locker with | some l => ctx.now - clock s l | none => 0) else 0) }
+    acc := g.acc + accTerm r s ctx op pw }
 
 def grun (r : Dec) (s : St) (g : Ghost) : Hist → St × Ghost
   | [] => (s, g)
